@@ -92,6 +92,7 @@ func (cr *checkRunner) checkStates(ctx context.Context, checks []module.Check, c
 
 		cr.log.Debugf("initializing state for %v (%p)", objectName(check), check)
 		state, err := check.CheckStateForMsg(ctx, cr.msgMeta)
+		state = verifWrapState(cr, check, state, err)
 		if err != nil {
 			closeStates()
 			return nil, err
